@@ -196,6 +196,10 @@ func init() {
 			return c.Ite(in, r.elemAt(s, i).(*Term), c.Const(32, 0))
 		},
 		pk + "verifAssertBytesEq": inAssertBytesEq,
+		pk + "verifWant": func(r *Run, fr *frame, a []Value) Value {
+			r.res.Wanted = append(r.res.Wanted, a[0].(Str).s)
+			return nil
+		},
 		pk + "verifEngineOnly": func(r *Run, fr *frame, a []Value) Value {
 			r.engineOnly = true
 			return nil
@@ -284,11 +288,14 @@ func inVerifBuf(r *Run, fr *frame, a []Value) Value {
 	if lo == hi {
 		n = c.Const(64, uint64(lo))
 	} else {
-		n = c.Var(name+"_len", 64)
-		n.rlo, n.rhi = 0, ^uint64(0)
-		cons := c.And(c.Ule(c.Const(64, uint64(lo)), n), c.Ule(n, c.Const(64, uint64(hi))))
-		n.rlo, n.rhi = uint64(lo), uint64(hi)
+		// the length is a variable of just enough bits, zero-extended to int
+		k := pickWidth(uint64(hi))
+		nv := c.Var(name+"_len", k)
+		nv.rlo, nv.rhi = 0, mask(k)
+		cons := c.And(c.Ule(c.Const(k, uint64(lo)), nv), c.Ule(nv, c.Const(k, uint64(hi))))
+		nv.rlo, nv.rhi = uint64(lo), uint64(hi)
 		r.addPC(cons)
+		n = c.Zext(nv, 64)
 	}
 	sl := r.newSlot(&ArrVal{node: &ArrNode{kind: ArrBase, elemW: 8, name: name}, n: n}, name)
 	return SliceVal{slot: sl, off: c.Const(64, 0), len: n, cap: n}
